@@ -676,7 +676,14 @@ class NumpyModel:
         out = base.only('ty', 'geo', 'idx', 'mono', 'prov', 'store', 'cols', 'colvals', 'taint', 'dtype', 'enc', 'origin')
         if all(i.ty == 'slice' for i in items):
             out = out.w(linspace=base.linspace, lin_n=base.lin_n, arange=base.arange, sorted=base.sorted)
+            if base.counts_of is not None or base.unique_of is not None:
+                trivial = all(i.lo is None and i.hi is None for i in items)
+                out = out.w(counts_of=base.counts_of, unique_of=base.unique_of, positional_slice=None if trivial else True)
         out = out.w(axes=new_axes, axis=axis_tag, at=base.at if (base.idx is not None and base.idx[0] == 'FRAME') else None)
+        n_fancy = sum(1 for it in items if it.ty in ('ndarray', 'list') and it.dtype != 'bool')
+        if n_fancy >= 2:
+            # a[[i, j], [k, l]] pairs the index lists element by element (a[i, k], a[j, l]); it is not the block a[i..j, k..l]
+            out = out.w(zipped_fancy=True)
         if fancy:
             out = out.w(store='fresh', fresh=True)
         else:
